@@ -1,145 +1,684 @@
 """C06 — Emitted source maps are valid and point at the defining GraphQL tokens (structural clauses)."""
 import re
 import harness
-from facts import norm, call_name, short, subnodes, lit_value, field_reads, peel_ty
+from facts import norm, call_name, short, subnodes, lit_value, peel_ty
 from prov import Prov, has_field, has_call
 from mirq import MirQ
-from emit import emission
-from templates import enclosing_contexts, _contains as templates_contains
+from templates import enclosing_contexts, inlined, scope_fns, _contains as templates_contains
 
 SW = "sourcemap_writer::source_writer::SourceWriter"
 MW = "sourcemap_writer::source_writer::mapping_writer::MappingWriter"
+POS = "nitrogql_ast::base::Pos"
+SMW = "sourcemap_writer::writer::SourceMapWriter::"
 SMW_WRITE_FOR = "<" + SW + " as sourcemap_writer::writer::SourceMapWriter>::write_for"
 SMW_WRITE = "<" + SW + " as sourcemap_writer::writer::SourceMapWriter>::write"
 USIZE_MAX = "<usize>::MAX"
+
+
+# ------------------------------------------------------------------------------------------------ local helpers
+# (module-local on purpose: shared modules are not edited by this module's owner; candidates for templates.py/prov.py)
+def _every(g):
+    return True
+
+
+def _returns_filemap(g):
+    return "::FileMap" in (g.sig_output or "")
+
+
+def _not_utf16_len(g):
+    return not g.path.endswith("utf16_len::utf16_len")
+
+
+_INL = {}
+
+
+def inl(P, fn, pred=_every):
+    """templates.inlined(fn) in which every inlined copy of a callee has its own local ids: a helper called several times does not
+    merge the provenance of its call sites.  The copy is private to this module (the predicate is part of the cache key)."""
+    key = (id(P), fn.path, pred)
+    g = _INL.get(key)
+    if g is None:
+        g = inlined(P, fn, 3, pred)
+        n = 0
+        st = [g.body]
+        while st:
+            x = st.pop()
+            if isinstance(x, list):
+                st.extend(x)
+                continue
+            if not isinstance(x, dict):
+                continue
+            if "inl" in x:
+                n += 1
+                _rename_locals(x["inl"], "#%d" % n)
+            st.extend(v for v in x.values() if isinstance(v, (dict, list)))
+        g._nodes = None
+        _INL[key] = g
+    return g
+
+
+def _rename_locals(root, suffix):
+    st = [root]
+    while st:
+        x = st.pop()
+        if isinstance(x, list):
+            st.extend(x)
+        elif isinstance(x, dict):
+            if "local" in x:
+                x["local"] = "%s%s" % (x["local"], suffix)
+            st.extend(v for v in x.values() if isinstance(v, (dict, list)))
+
+
+def strip(e):
+    """expression without casts, borrows, derefs, temporaries and statement-less blocks"""
+    while isinstance(e, dict):
+        k = e.get("k")
+        if k in ("DropTemps", "Use", "Cast", "Type", "AddrOf") and isinstance(e.get("e"), dict):
+            e = e["e"]
+        elif k == "Unary" and e.get("op") == "Deref":
+            e = e["e"]
+        elif k == "BlockExpr" and not e["b"]["stmts"] and "tail" in e["b"]:
+            e = e["b"]["tail"]
+        else:
+            break
+    return e
 
 
 def cond_ctx(fn, idx):
     return tuple(id(c[1]) for c in enclosing_contexts(fn, idx) if c[0] in ("if-then", "if-else", "arm"))
 
 
+def is_sentinel(P, n, depth=0):
+    """`usize::MAX`, or a workspace constant defined as it"""
+    n = strip(n)
+    if not isinstance(n, dict) or n.get("k") != "Path" or "def" not in n:
+        return False
+    d = norm(n["def"])
+    if d == USIZE_MAX:
+        return True
+    c = P.fns.get(d)
+    if c is not None and str(c.kind).startswith("Const") and depth < 2:
+        return is_sentinel(P, c.body, depth + 1)
+    return False
+
+
+def int_of(P, e, depth=0):
+    """integer value of a literal or of a workspace constant defined by a literal; None otherwise"""
+    e = strip(e)
+    if not isinstance(e, dict):
+        return None
+    v = lit_value(e)
+    if v is not None:
+        try:
+            return int(str(v))
+        except ValueError:
+            return None
+    if e.get("k") == "Path" and "def" in e and depth < 2:
+        c = P.fns.get(norm(e["def"]))
+        if c is not None and str(c.kind).startswith("Const"):
+            return int_of(P, c.body, depth + 1)
+    return None
+
+
+TRANSPARENT = {"clone", "to_owned", "as_ref", "as_mut", "borrow", "borrow_mut", "unwrap", "expect", "into", "copied", "cloned", "deref"}
+OPTION_LIKE = ("core::option::Option::Some", "core::result::Result::Ok")
+
+
+class Comp:
+    """Component-sensitive provenance inside one (virtually inlined) function: what the component `path` (a sequence of field
+    names / tuple positions) of an expression's value is computed from.  Sees through struct and tuple literals (incl. `..base`),
+    locals bound once, destructuring patterns and inlined same-crate helpers, so that passing six scalars, a tuple or a nested
+    struct gives the same answer.  comp() -> (atoms, precise) or None when the shape is not recognised; atoms are Prov atoms plus
+    ("op", operator) for arithmetic met at the leaves."""
+
+    def __init__(self, P, fn):
+        self.P, self.fn = P, fn
+        self.pv = Prov(fn, field_assign=False)   # locals assigned field-wise are left to `multi` below (-> not recognised)
+        self.single = {}    # local -> its only initialiser (plain `let`, or the argument of an inlined parameter)
+        self.patb = {}      # local -> (initialiser, field path inside the destructuring pattern)
+        self.param_ix = {}
+        multi = set()
+        for i, p in enumerate(fn.params):
+            if p.get("k") == "Binding" and "sub" not in p:
+                self.param_ix[p["local"]] = i
+        for n in fn.walk():
+            k = n.get("k")
+            if k in ("Let", "LetExpr"):
+                self._bind(n["pat"], n.get("init"), multi)
+            elif k == "Match":
+                for arm in n["arms"]:
+                    self._bind(arm["pat"], n["scrut"], multi)
+            elif k in ("Call", "MethodCall") and "inl" in n:
+                args = ([n["recv"]] if k == "MethodCall" else []) + n["args"]
+                for pp, aa in zip(n["inl"]["params"], args):
+                    self._bind(pp, aa, multi)
+            elif k in ("Assign", "AssignOp"):
+                b = n["l"]
+                while b.get("k") in ("Field", "Index", "Unary"):
+                    b = b["e"]
+                if b.get("k") == "Path" and "local" in b:
+                    multi.add(b["local"])
+        for l in multi:
+            self.single.pop(l, None)
+            self.patb.pop(l, None)
+
+    def _bind(self, pat, init, multi):
+        if pat.get("k") == "Binding" and "sub" not in pat:
+            l = pat["local"]
+            if l in self.single or l in self.patb or init is None:
+                multi.add(l)
+            else:
+                self.single[l] = init
+            return
+        self._pat(pat, init, (), multi)
+
+    def _pat(self, pat, init, path, multi):
+        k = pat.get("k")
+        if k == "Binding":
+            l = pat["local"]
+            if l in self.single or l in self.patb or init is None:
+                multi.add(l)
+            else:
+                self.patb[l] = (init, path)
+            if "sub" in pat:
+                self._pat(pat["sub"], init, path, multi)
+        elif k == "Struct":
+            for f in pat["fields"]:
+                self._pat(f["p"], init, path + (f["name"],), multi)
+        elif k == "TupleStruct":
+            ctor = norm(pat.get("ctor_of") or pat.get("def") or "")
+            for i, p in enumerate(pat["ps"]):
+                self._pat(p, init, path if (ctor in OPTION_LIKE and len(pat["ps"]) == 1) else path + ("%s.%d" % (ctor, i),), multi)
+        elif k == "Tuple":
+            for i, p in enumerate(pat["ps"]):
+                self._pat(p, init, path + (("?" if "ddpos" in pat else str(i)),), multi)
+        elif k in ("Ref", "Deref", "Box", "Guard"):
+            self._pat(pat["p"], init, path, multi)
+        elif k in ("Or", "Slice"):
+            for b in subnodes(pat):
+                if b.get("k") == "Binding":
+                    multi.add(b["local"])
+
+    # ----------------------------------------------------------------------------------------------------------- callee side
+    def access(self, e, depth=0):
+        """(parameter index, field path) when `e` is a component of a parameter of the function; None otherwise"""
+        e = strip(e)
+        if depth > 12 or not isinstance(e, dict):
+            return None
+        k = e.get("k")
+        if k == "Field":
+            r = self.access(e["e"], depth + 1)
+            return (r[0], r[1] + (e["field"],)) if r else None
+        if k == "MethodCall" and e.get("method") in TRANSPARENT:
+            return self.access(e["recv"], depth + 1)
+        if k == "Path" and "local" in e:
+            l = e["local"]
+            if l in self.param_ix:
+                return (self.param_ix[l], ())
+            if l in self.single:
+                return self.access(self.single[l], depth + 1)
+            if l in self.patb:
+                init, p = self.patb[l]
+                r = self.access(init, depth + 1)
+                return (r[0], r[1] + p) if r else None
+        return None
+
+    def resolve(self, e, depth=0):
+        """the expression a once-bound local stands for"""
+        e = strip(e)
+        while depth < 12 and isinstance(e, dict) and e.get("k") == "Path" and e.get("local") in self.single:
+            e = strip(self.single[e["local"]])
+            depth += 1
+        return e
+
+    # ----------------------------------------------------------------------------------------------------------- caller side
+    def _returns(self, call):
+        body = call["inl"]["body"]
+        out = [x["e"] for x in subnodes(body) if x.get("k") == "InlRet" and "e" in x and not self._in_nested_inl(body, x)]
+        if body.get("k") == "BlockExpr":
+            if "tail" in body["b"]:
+                out.append(body["b"]["tail"])
+        else:
+            out.append(body)
+        return out
+
+    @staticmethod
+    def _in_nested_inl(body, node):
+        return any("inl" in y and y is not node and templates_contains(y["inl"], node) for y in subnodes(body) if y.get("k") in ("Call", "MethodCall"))
+
+    def _union(self, parts):
+        atoms, precise = set(), True
+        for r in parts:
+            if r is None:
+                return None
+            atoms |= r[0]
+            precise = precise and r[1]
+        return atoms, precise
+
+    def comp(self, e, path=(), depth=0):
+        e = strip(e)
+        if not isinstance(e, dict):
+            return (set(), True)
+        if depth > 24:
+            return None
+        k = e.get("k")
+        path = tuple(path)
+        if k == "Field":
+            r = self.comp(e["e"], (e["field"],) + path, depth + 1)
+            if r is not None:
+                return r
+            # opaque base (a parameter, the result of a foreign call ...): the field atom itself names the component
+            base = self.pv.atoms(e["e"])
+            atom = ("field", norm(e["adt"]), e["field"]) if e.get("adt") else ("tuplefield", e["field"])
+            return ({atom} | set(base), not any(a[0] == "ctor" for a in base))
+        if k == "Path" and "local" in e:
+            l = e["local"]
+            if l in self.single:
+                return self.comp(self.single[l], path, depth + 1)
+            if l in self.patb:
+                init, p = self.patb[l]
+                return self.comp(init, p + path, depth + 1)
+            if path:
+                return None
+            a = self.pv.atoms(e)
+            return (set(a), not any(x[0] == "ctor" for x in a))
+        if k == "Struct" and "rest" not in e:
+            if path:
+                for f in e["fields"]:
+                    if f["name"] == path[0]:
+                        return self.comp(f["e"], path[1:], depth + 1)
+                if e.get("base") is not None:
+                    return self.comp(e["base"], path, depth + 1)
+                return None
+            return self._union([self.comp(f["e"], (), depth + 1) for f in e["fields"]]
+                               + ([self.comp(e["base"], (), depth + 1)] if e.get("base") is not None else []))
+        if k == "Tup" and path:
+            if path[0].isdigit() and int(path[0]) < len(e["es"]):
+                return self.comp(e["es"][int(path[0])], path[1:], depth + 1)
+            return None
+        if k in ("Call", "MethodCall"):
+            if k == "Call" and norm(e.get("callee") or "") in OPTION_LIKE and len(e["args"]) == 1:
+                return self.comp(e["args"][0], path, depth + 1)
+            if k == "MethodCall" and e.get("method") in TRANSPARENT and path:
+                return self.comp(e["recv"], path, depth + 1)
+            if "inl" in e and path:
+                return self._union([self.comp(r, path, depth + 1) for r in self._returns(e)])
+            if path:
+                return None
+        if path:
+            if k == "If":
+                return self._union([self.comp(e["then"], path, depth + 1)] + ([self.comp(e["else"], path, depth + 1)] if "else" in e else []))
+            if k == "Match":
+                return self._union([self.comp(a["body"], path, depth + 1) for a in e["arms"]])
+            if k == "BlockExpr" and "tail" in e["b"]:
+                return self.comp(e["b"]["tail"], path, depth + 1)
+            return None
+        # leaf: everything the expression is computed from
+        atoms = set()
+        if k == "Lit":
+            atoms.add(("lit", e.get("v")))
+        elif k == "Path" and "def" in e:
+            atoms.add(("def", norm(e["def"])))
+        elif k in ("Binary", "AssignOp"):
+            atoms.add(("op", e.get("op")))
+        elif k in ("Call", "MethodCall"):
+            c = call_name(e)
+            if c:
+                atoms.add(("call", c))
+            if e.get("callee"):
+                atoms.add(("call", norm(e["callee"])))
+        elif k in ("Binding", "Wild", "TupleStruct", "PatExpr", "Tuple", "Or", "Ref", "Range", "Slice") or (k == "Struct" and "rest" in e):
+            return (atoms, True)
+        parts = [(atoms, True)]
+        for key, v in e.items():
+            if key == "inl" or not isinstance(v, (dict, list)):
+                continue
+            for c in _direct(v):
+                parts.append(self.comp(c, (), depth + 1))
+        r = self._union(parts)
+        if r is None:
+            a = self.pv.atoms(e)
+            return (set(a), False)
+        return r
+
+
+def _direct(v):
+    """nearest descendants that are nodes"""
+    out = []
+    st = [v]
+    while st:
+        x = st.pop()
+        if isinstance(x, list):
+            st.extend(reversed(x))
+        elif isinstance(x, dict):
+            if "k" in x:
+                out.append(x)
+            else:
+                st.extend(y for y in x.values() if isinstance(y, (dict, list)))
+    return out
+
+
+def outside_param(atoms):
+    return any(a[0] == "param" and a[1] != "self" for a in atoms)
+
+
+def delta_bases(P):
+    return [x for x in P.adt(MW).fields() if x.startswith("last_")]
+
+
+def entry_roles(P):
+    """{delta base: (parameter index of add_entry, field path)} — the component of add_entry's input that each last_* field
+    remembers (and is subtracted from); this is what gives an argument of add_entry its meaning, independently of parameter
+    order, names or packaging.  A base whose update and subtraction disagree has no role (R06-a reports it)."""
+    f = inl(P, P.fn(MW + "::add_entry"))
+    C = Comp(P, f)
+
+    def base_of(e):
+        e = strip(e)
+        return e["field"] if e.get("k") == "Field" and norm(e.get("adt")) == MW and e["field"].startswith("last_") else None
+    found = {}
+    for n in f.walk():
+        if n.get("k") == "Assign" and base_of(n["l"]):
+            found.setdefault(base_of(n["l"]), []).append(C.access(n["r"]))
+        elif n.get("k") == "Binary" and n.get("op") == "-" and base_of(C.resolve(n["r"])):
+            found.setdefault(base_of(C.resolve(n["r"])), []).append(C.access(n["l"]))
+    return {b: v[0] for b, v in found.items() if len(set(v)) == 1 and v[0] is not None}
+
+
+def entry_component(C, call, role):
+    idx, path = role
+    args = ([call["recv"]] if call.get("k") == "MethodCall" else []) + call["args"]
+    if idx >= len(args):
+        return None
+    return C.comp(args[idx], path)
+
+
+def add_entry_calls(fn):
+    return [c for c in fn.walk() if c.get("k") in ("MethodCall", "Call") and (call_name(c) or "") == MW + "::add_entry"]
+
+
+# ------------------------------------------------------------------------------------------------------------- rules
+def quantity(atoms):
+    """the input quantity an expression of add_entry stands for: its non-self parameters and the fields read from them"""
+    return frozenset(a for a in atoms if (a[0] == "param" and a[1] != "self") or (a[0] == "field" and a[1] != MW) or a[0] == "tuplefield")
+
+
+def qname(q):
+    return ".".join(sorted(a[-1] for a in q)) or "?"
+
+
+SUBTRACTIONS = {"wrapping_sub", "checked_sub", "saturating_sub", "overflowing_sub", "abs_diff", "sub"}
+
+
 def r06a(P, R):
     """delta-base discipline in MappingWriter::add_entry"""
-    f = P.fn(MW + "::add_entry")
+    f0 = P.fn(MW + "::add_entry")
+    f = inl(P, f0)
     pv = Prov(f, field_assign=False)
     acc = f.nodes()
-    deltas = {}   # last field -> (param name, ctx)
+
+    def last_fields(atoms):
+        return sorted({a[2] for a in atoms if a[0] == "field" and a[1] == MW and a[2].startswith("last_")})
+    deltas = {}   # last field -> [(quantity, ctx, op)]
     for i, (n, _) in enumerate(acc):
-        if n.get("k") == "Binary" and n.get("op") in ("-", "!="):
-            rf = [x for x in subnodes(n["r"]) if x.get("k") == "Field" and norm(x.get("adt")) == MW and x["field"].startswith("last_")]
-            lf = [x for x in subnodes(n["l"]) if x.get("k") == "Field" and norm(x.get("adt")) == MW and x["field"].startswith("last_")]
-            if n.get("op") == "-" and rf:
-                params = {a[1] for a in pv.atoms(n["l"]) if a[0] == "param"}
-                deltas.setdefault(rf[0]["field"], []).append((params, cond_ctx(f, i), "-"))
-            elif n.get("op") == "!=" and (lf or rf):
-                fld = (lf or rf)[0]["field"]
-                other = n["r"] if lf else n["l"]
-                params = {a[1] for a in pv.atoms(other) if a[0] == "param"}
-                deltas.setdefault(fld, []).append((params, cond_ctx(f, i), "!="))
+        k = n.get("k")
+        if k == "Binary" and n.get("op") in ("-", "!="):
+            l, r, op = n["l"], n["r"], n["op"]
+        elif k == "MethodCall" and n.get("method") in SUBTRACTIONS and len(n["args"]) == 1:
+            l, r, op = n["recv"], n["args"][0], "-"
+        else:
+            continue
+        la, ra = pv.atoms(l), pv.atoms(r)
+        lf, rf = last_fields(la), last_fields(ra)
+        if op == "-" and len(rf) == 1 and not lf:
+            deltas.setdefault(rf[0], []).append((quantity(la), cond_ctx(f, i), "-"))
+        elif op == "!=" and len(lf) + len(rf) == 1:
+            deltas.setdefault((lf or rf)[0], []).append((quantity(ra if lf else la), cond_ctx(f, i), "!="))
     assigns = {}
     for i, (n, _) in enumerate(acc):
         if n.get("k") == "Assign" and n["l"].get("k") == "Field" and norm(n["l"].get("adt")) == MW and n["l"]["field"].startswith("last_"):
-            params = {a[1] for a in pv.atoms(n["r"]) if a[0] == "param"}
-            assigns.setdefault(n["l"]["field"], []).append((params, cond_ctx(f, i)))
-    adt = P.adt(MW)
-    bases = [x for x in adt.fields() if x.startswith("last_")]
+            assigns.setdefault(n["l"]["field"], []).append((quantity(pv.atoms(n["r"])), cond_ctx(f, i)))
+    bases = delta_bases(P)
     R.floor("R06-a", "delta bases (last_* fields)", len(bases), 6)
+    reads = {n["field"] for n in f.walk() if n.get("k") == "Field" and norm(n.get("adt")) == MW}
+    rebuilt = any(n.get("k") == "Struct" and "rest" not in n and norm(n.get("adt", "")) == MW for n in f.walk())
+    qb = {}
     for b in bases:
         ds = [d for d in deltas.get(b, []) if d[2] == "-"]
         asg = assigns.get(b, [])
-        if not ds and not deltas.get(b):
-            R.violated("R06-a", b + ":used", "delta base `%s` is never subtracted from a parameter" % b, loc=f.loc())
+        if not deltas.get(b):
+            if b in reads:
+                R.undecided("R06-a", b + ":used", "delta base `%s` is read, but not in a subtraction this rule recognises" % b, loc=f.loc())
+            else:
+                R.violated("R06-a", b + ":used", "delta base `%s` is never subtracted from a parameter" % b, loc=f.loc())
             continue
-        p_delta = set().union(*[d[0] for d in deltas.get(b, [])])
+        p_delta = {d[0] for d in deltas.get(b, [])}
+        if not asg:
+            borrowed = any(n.get("k") == "AddrOf" and n.get("mut") and strip(n["e"]).get("k") == "Field" and strip(n["e"]).get("field") == b for n in f.walk())
+            if rebuilt or borrowed:
+                R.undecided("R06-a", b + ":updated", "`%s` is not assigned directly (the writer is rebuilt or the field is borrowed mutably)" % b, loc=f.loc())
+            else:
+                R.violated("R06-a", b + ":updated", "delta base `%s` is assigned 0 time(s) in add_entry (expected exactly one update): every later "
+                           "segment's delta is taken from a stale value" % b, loc=f.loc())
+            continue
+        if len({a[0] for a in asg}) == 1:
+            qb[b] = asg[0][0]
+        R.check("R06-a", b + ":same-quantity", len(p_delta) == 1 and {a[0] for a in asg} == p_delta,
+                "`%s` is the previous value of `%s`" % (b, qname(sorted(p_delta, key=sorted)[0])),
+                "`%s` is subtracted from %s but updated from %s" % (b, sorted(qname(q) for q in p_delta), sorted(qname(a[0]) for a in asg)), loc=f.loc())
         if len(asg) != 1:
-            R.violated("R06-a", b + ":updated", "delta base `%s` is assigned %d time(s) in add_entry (expected exactly one update): every later "
-                       "segment's delta is taken from a stale value" % (b, len(asg)), loc=f.loc())
+            R.undecided("R06-a", b + ":updated-on-emission-paths", "`%s` is assigned at %d places; their path conditions are not compared" % (b, len(asg)), loc=f.loc())
             continue
-        p_asg, ctx_asg = asg[0]
-        R.check("R06-a", b + ":same-quantity", len(p_delta) == 1 and p_asg == p_delta,
-                "`%s` is the previous value of `%s`" % (b, sorted(p_delta)[0] if p_delta else "?"),
-                "`%s` is subtracted from %s but updated from %s" % (b, sorted(p_delta), sorted(p_asg)), loc=f.loc())
+        ctx_asg = asg[0][1]
         # update happens on every path on which the delta was emitted
         ctxs = [d[1] for d in ds] or [()]
-        ok = all(ctx_asg == c[:len(ctx_asg)] for c in ctxs) and (ctx_asg == () or any(c == ctx_asg for c in ctxs))
-        R.check("R06-a", b + ":updated-on-emission-paths", ok, "updated on every path that emits its delta",
-                "`%s` is updated under a different condition than the one under which its delta is emitted" % b, loc=f.loc())
-    # field order of a segment: generated column, source, original line, original column[, name]
-    pushes = []
-    for n in f.walk():
-        if n.get("k") == "MethodCall" and n["method"] == "push_str" and any((call_name(x) or "").endswith("base64_vlq") for x in subnodes(n)):
-            a = pv.atoms(n["args"][0])
-            pushes.append(sorted(x[1] for x in a if x[0] == "param" and x[1] != "self"))
-    order = [p[0] if len(p) == 1 else "|".join(p) for p in pushes]
-    want = ["generated_column", "generated_column", "source_file_index", "original_line", "original_column", "name_index"]
-    R.check("R06-a", "segment-field-order", order == want, "segment fields are emitted in Source Map v3 order",
-            "segment fields are emitted as %s, Source Map v3 requires [column, source, line, column, name]" % order, loc=f.loc())
-    # one VLQ per field goes through base64_vlq
-    R.floor("R06-a", "VLQ emissions", len(pushes), 6)
+        if all(ctx_asg == c[:len(ctx_asg)] for c in ctxs):
+            R.holds("R06-a", b + ":updated-on-emission-paths", "updated on every path that emits its delta", loc=f.loc())
+        elif any(len(c) < len(ctx_asg) and c == ctx_asg[:len(c)] for c in ctxs):
+            R.violated("R06-a", b + ":updated-on-emission-paths", "`%s` is updated under a condition, but its delta is also emitted where that condition "
+                       "does not hold: the next delta is taken from a stale value" % b, loc=f.loc())
+        else:
+            R.undecided("R06-a", b + ":updated-on-emission-paths", "`%s` is updated and subtracted under conditions this rule cannot compare" % b, loc=f.loc())
+    # field order of a segment: generated column, source, original line, original column[, name] — every VLQ field is identified by
+    # the delta base that remembers the quantity it is computed from
+    vlq = [(i, n) for i, (n, _) in enumerate(acc) if n.get("k") == "Call" and (call_name(n) or "").endswith("base64_vlq::base64_vlq") and n["args"]]
+    R.floor("R06-a", "VLQ emissions", len(vlq), 5)
+    want = ["last_generated_column", "last_file_index", "last_original_line", "last_original_column", "last_name_index"]
+    direct = all(any(p.get("k") == "MethodCall" and peel_ty(p["recv"].get("t", "")) == "alloc::string::String" for p in f.parents_of(i)) for i, _ in vlq)
+    order, unknown = [], False
+    for i, n in vlq:
+        q = quantity(pv.atoms(n["args"][0]))
+        inv = [b for b in bases if b in qb and qb[b] and qb[b] <= q]
+        unknown = unknown or not inv
+        name = "|".join(inv)
+        if not order or order[-1] != name:
+            order.append(name)
+    if not vlq:
+        pass
+    elif not direct or unknown or any(b not in qb for b in want):
+        R.undecided("R06-a", "segment-field-order", "the VLQ fields are not all pushed where they are computed, or some cannot be tied to a delta base "
+                    "(%s)" % order, loc=f.loc())
+    else:
+        R.check("R06-a", "segment-field-order", order == want, "segment fields are emitted in Source Map v3 order",
+                "segment fields are computed from the quantities remembered in %s; Source Map v3 requires [column, source, line, column, name], "
+                "each field from its own quantity only" % order, loc=f.loc())
 
 
 def r06b(P, R):
     """sentinel guard: usize::MAX placed in file_indices must not reach add_entry"""
-    rg = P.fn("nitrogql_cli::generate::run_generate")
-    produces = [n for n in rg.walk() if n.get("k") == "Path" and norm(n.get("def", "")) == USIZE_MAX]
+    rg = inl(P, P.fn("nitrogql_cli::generate::run_generate"), _returns_filemap)
+    produces = [n for n in rg.walk() if is_sentinel(P, n)]
     wf = P.fn(SMW_WRITE_FOR)
-    guards = [n for n in wf.walk() if n.get("k") == "Path" and norm(n.get("def", "")) == USIZE_MAX]
-    idx_reads = [n for n in wf.walk() if n.get("k") == "Index" and has_field(Prov(wf).atoms(n["e"]), SW, "file_index_mapper")]
+    guards = [n for g in scope_fns(P, wf) for n in g.walk() if is_sentinel(P, n)]
+    wfi = inl(P, wf)
+    pvw = Prov(wfi)
+    idx_reads = [n for n in wfi.walk() if n.get("k") == "Index" and has_field(pvw.atoms(n["e"]), SW, "file_index_mapper")]
     R.floor("R06-b", "file-index lookups in write_for", len(idx_reads), 1)
-    if produces:
-        R.check("R06-b", "sentinel-reaches-add_entry", bool(guards),
-                "write_for filters the `usize::MAX` sentinel",
-                "generate.rs marks files that are not sources of the current output with usize::MAX, and SourceWriter::write_for hands "
-                "`file_index_mapper[pos.file]` to add_entry without testing for it: a node from such a file (a fragment imported from "
-                "another operation file) gets source index usize::MAX as isize = -1", loc=wf.loc(),
-                detail={"sentinel_sites": len(produces)})
-    else:
+    if not produces:
         R.holds("R06-b", "sentinel-reaches-add_entry", "no sentinel is produced")
-    # the consumer that builds `sources` filters the same sentinel
+        return
+    R.check("R06-b", "sentinel-reaches-add_entry", bool(guards),
+            "write_for filters the `usize::MAX` sentinel",
+            "generate.rs marks files that are not sources of the current output with usize::MAX, and SourceWriter::write_for hands "
+            "`file_index_mapper[pos.file]` to add_entry without testing for it: a node from such a file (a fragment imported from "
+            "another operation file) gets source index usize::MAX as isize = -1", loc=wf.loc(),
+            detail={"sentinel_sites": len(produces)})
+    # the consumer that builds `sources` filters the same sentinel: some function run_generate reaches in its crate compares an
+    # index with it
     w = P.fn("nitrogql_cli::generate::write_file_and_sourcemap")
-    g = [n for n in w.walk() if n.get("k") == "Path" and norm(n.get("def", "")) == USIZE_MAX]
-    R.check("R06-b", "sources-filter-sentinel", bool(g), "`sources` lists exactly the files whose index is not the sentinel",
-            "write_file_and_sourcemap no longer filters the sentinel when building `sources`", loc=w.loc())
+    tests = [n for g in scope_fns(P, P.fn("nitrogql_cli::generate::run_generate")) + scope_fns(P, w) for n in g.walk()
+             if (n.get("k") == "Binary" and n.get("op") in ("==", "!=") and (is_sentinel(P, n["l"]) or is_sentinel(P, n["r"])))
+             or (n.get("k") == "PatExpr" and is_sentinel(P, n))]
+    R.check("R06-b", "sources-filter-sentinel", bool(tests), "`sources` lists exactly the files whose index is not the sentinel",
+            "the sentinel is put into the index table, but nothing run_generate reaches compares an index with it when building `sources`", loc=w.loc())
 
 
 def r06c(P, R):
     wf = P.fn(SMW_WRITE_FOR)
-    mq = MirQ(P.mir[wf.path])
-    flush = mq.calls_to(lambda p: p == SW + "::flush_pending_indent")
-    adds = mq.calls_to(lambda p: p == MW + "::add_entry")
-    maps = mq.calls_to(lambda p: p.endswith("NameMapper::map_name"))
-    R.floor("R06-c", "add_entry calls in write_for", len(adds), 3)
-    named = [a for a in adds if any(mq.dominates(m, a) for m in maps)]
-    R.floor("R06-c", "named-branch add_entry calls", len(named), 2)
-    ok = bool(flush) and all(any(mq.dominates(fl, a) for fl in flush) for a in named)
-    R.check("R06-c", "flush-before-named-segment", ok, "pending indentation is flushed before the generated column of a named segment is read",
-            "in the named-node branch of write_for, add_entry is not dominated by flush_pending_indent: the segment points into the "
-            "indentation instead of at the identifier", loc=wf.loc())
-    # named branch: [add_entry(start, Some(name)), write(chunk), add_entry(end, None)] in that order
-    writes = mq.calls_to(lambda p: p == SMW_WRITE)
-    if len(named) >= 2:
-        first, last = named[0], named[-1]
-        w_between = [w for w in writes if mq.dominates(first, w) and mq.dominates(w, last)]
-        R.check("R06-c", "open-write-close", len(w_between) >= 1, "start segment, chunk, closing segment in this order",
-                "the named branch does not emit [segment, chunk, closing segment] in order", loc=wf.loc())
+    FLUSH = SW + "::flush_pending_indent"
+    scope = [g for g in scope_fns(P, wf) if g.path in P.mir and g.path != FLUSH]
+    mqs = {g.path: MirQ(P.mir[g.path]) for g in scope}
+
+    def must_flush(path, depth=0):
+        """every normal return of the function is preceded by a flush"""
+        mq = mqs.get(path)
+        if mq is None or depth > 2:
+            return False
+        fl = mq.calls_to(lambda p: p == FLUSH or (p != path and must_flush(p, depth + 1)))
+        rets = mq.returns()
+        return bool(rets) and all(any(mq.dominates(f_, r_) for f_ in fl) for r_ in rets)
+
+    def flushed_before(path, block, depth=0):
+        """is the block dominated by a flush in its function — or, for a helper, is every call of the helper (up to write_for) so?
+        True / False / None (callers unknown)"""
+        mq = mqs[path]
+        if any(mq.dominates(fl, block) for fl in mq.calls_to(lambda p: p == FLUSH or must_flush(p))):
+            return True
+        if path == wf.path:
+            return False
+        sites = [(h, b) for h, hq in mqs.items() if h != path for b in hq.calls_to(lambda p: p == path)]
+        if not sites or depth > 2:
+            return None
+        vs = [flushed_before(h, b, depth + 1) for h, b in sites]
+        return False if any(v is False for v in vs) else (True if all(v is True for v in vs) else None)
+    n_adds = n_named = 0
+    for g in scope:
+        # the segments of a named node may be emitted by write_for itself or by a helper it calls
+        mq = mqs[g.path]
+        adds = mq.calls_to(lambda p: p == MW + "::add_entry")
+        maps = mq.calls_to(lambda p: p.endswith("NameMapper::map_name"))
+        named = [a for a in adds if any(mq.dominates(m, a) for m in maps)]
+        n_adds += len(adds)
+        n_named += len(named)
+        if not named:
+            continue
+        verdicts = [flushed_before(g.path, a) for a in named]
+        if all(v is True for v in verdicts) or any(v is False for v in verdicts):
+            R.check("R06-c", "flush-before-named-segment", all(v is True for v in verdicts), "pending indentation is flushed before the generated column of a named segment is read",
+                    "in the named-node branch of write_for, add_entry is not dominated by flush_pending_indent: the segment points into the "
+                    "indentation instead of at the identifier", loc=g.loc())
+        else:
+            R.undecided("R06-c", "flush-before-named-segment", "%s emits the named segments without flushing itself and its callers in write_for's "
+                        "scope could not be enumerated" % short(g.path), loc=g.loc())
+        # named branch: [add_entry(start, Some(name)), write(chunk), add_entry(end, None)] in that order
+        writes = mq.calls_to(lambda p: p == SMW_WRITE)
+        if len(named) >= 2:
+            first, last = named[0], named[-1]
+            w_between = [w for w in writes if mq.dominates(first, w) and mq.dominates(w, last)]
+            R.check("R06-c", "open-write-close", len(w_between) >= 1, "start segment, chunk, closing segment in this order",
+                    "the named branch does not emit [segment, chunk, closing segment] in order", loc=g.loc())
+    R.floor("R06-c", "add_entry calls in write_for", n_adds, 3)
+    R.floor("R06-c", "named-branch add_entry calls", n_named, 2)
     # builtin nodes produce no segment
-    pv = Prov(wf)
-    ifs = [n for n in wf.walk() if n.get("k") == "If" and has_field(pv.atoms(n["cond"]), "nitrogql_ast::base::Pos", "builtin")]
-    ok = bool(ifs) and any(x.get("k") == "Ret" for x in subnodes(ifs[0]["then"])) and not any((call_name(x) or "").endswith("add_entry") for x in subnodes(ifs[0]["then"]))
-    R.check("R06-c", "builtin-no-segment", ok, "builtin positions are written without a segment",
-            "write_for emits a segment for builtin (position-less) nodes", loc=wf.loc())
-    # add_entry arguments: (current_line, current_column, pos.line, pos.column[+len(name)], file_index, name)
-    calls = [c for c in wf.walk() if c.get("k") == "MethodCall" and (call_name(c) or "") == MW + "::add_entry"]
+    wfi = inl(P, wf)
+    C = Comp(P, wfi)
+    pv = C.pv
+    calls = add_entry_calls(wfi)
+    ifs = [n for n in wfi.walk() if n.get("k") == "If" and has_field(pv.atoms(n["cond"]), POS, "builtin")]
+    reads_builtin = any(n.get("k") == "Field" and n.get("field") == "builtin" and norm(n.get("adt")) == POS for n in wfi.walk())
+    if not ifs:
+        if not reads_builtin and calls:
+            R.violated("R06-c", "builtin-no-segment", "write_for never reads `Pos.builtin`: builtin (position-less) nodes get a segment", loc=wf.loc())
+        else:
+            R.undecided("R06-c", "builtin-no-segment", "the test of `Pos.builtin` is not an `if` this rule recognises", loc=wf.loc())
+    else:
+        x = ifs[0]
+        cond, neg = strip(x["cond"]), False
+        while cond.get("k") == "Unary" and cond.get("op") == "Not":
+            cond, neg = strip(cond["e"]), not neg
+        if cond.get("k") not in ("Field", "Path"):
+            R.undecided("R06-c", "builtin-no-segment", "the condition on `Pos.builtin` is compound", loc=wf.loc())
+        else:
+            bb = x.get("else") if neg else x["then"]
+            in_b = [c for c in calls if bb is not None and templates_contains(bb, c)]
+            after = [c for c in calls if not templates_contains(x, c)]
+            leaves = bb is not None and any(y.get("k") == "Ret" for y in subnodes(bb))
+            R.check("R06-c", "builtin-no-segment", not in_b and (leaves or not after), "builtin positions are written without a segment",
+                    "write_for emits a segment for builtin (position-less) nodes", loc=wf.loc())
+    # what add_entry is given: the component remembered as generated line/column comes from the writer's cursor, the one remembered
+    # as original line/column from the node's position, the source index from the node's file (through the mapper)
+    roles = entry_roles(P)
+    need = [("last_generated_line", (SW, "current_line"), (SW, "current_column"), "generated line"),
+            ("last_generated_column", (SW, "current_column"), (SW, "current_line"), "generated column"),
+            ("last_original_line", (POS, "line"), (POS, "column"), "original line"),
+            ("last_original_column", (POS, "column"), (POS, "line"), "original column")]
+    R.floor("R06-c", "add_entry call sites reachable in write_for", len(calls), 3)
     for j, c in enumerate(calls):
-        a = [pv.atoms(x) for x in c["args"]]
-        ok = has_field(a[0], SW, "current_line") and has_field(a[1], SW, "current_column") and has_field(a[2], "nitrogql_ast::base::Pos", "line") \
-            and has_field(a[3], "nitrogql_ast::base::Pos", "column") and not has_field(a[2], "nitrogql_ast::base::Pos", "column") \
-            and not has_field(a[3], "nitrogql_ast::base::Pos", "line") and not has_field(a[0], SW, "current_column") and not has_field(a[1], SW, "current_line")
-        R.check("R06-c", "add_entry-args:%d" % j, ok, "(gen line, gen column, orig line, orig column) in order",
-                "write_for passes add_entry its line/column arguments in the wrong positions", loc=wf.loc())
-        ok = has_field(a[4], SW, "file_index_mapper") or has_field(a[4], "nitrogql_ast::base::Pos", "file")
-        R.check("R06-c", "add_entry-source:%d" % j, ok, "source index comes from the node's file through the mapper",
-                "write_for passes a source index not derived from the node's file", loc=wf.loc())
+        bad, und = [], []
+        for base, req, opp, what in need:
+            r = entry_component(C, c, roles[base]) if base in roles else None
+            if r is None:
+                und.append(what)
+                continue
+            a, precise = r
+            has_req, has_opp = has_field(a, *req), has_field(a, *opp)
+            if has_req and not has_opp:
+                continue
+            if has_opp and (precise or not has_req):
+                bad.append("the %s is computed from `%s`" % (what, opp[1]))
+            elif has_opp or outside_param(a):
+                und.append(what)
+            else:
+                bad.append("the %s does not derive from `%s`" % (what, req[1]))
+        if bad:
+            R.violated("R06-c", "add_entry-args:%d" % j, "write_for passes add_entry its line/column arguments in the wrong positions: " + "; ".join(bad), loc=wf.loc())
+        elif und:
+            R.undecided("R06-c", "add_entry-args:%d" % j, "could not trace the %s handed to add_entry" % ", ".join(und), loc=wf.loc())
+        else:
+            R.holds("R06-c", "add_entry-args:%d" % j, "(gen line, gen column, orig line, orig column) each from its own source", loc=wf.loc())
+        r = entry_component(C, c, roles["last_file_index"]) if "last_file_index" in roles else None
+        if r is None or (not (has_field(r[0], SW, "file_index_mapper") or has_field(r[0], POS, "file")) and outside_param(r[0])):
+            R.undecided("R06-c", "add_entry-source:%d" % j, "could not trace the source index handed to add_entry", loc=wf.loc())
+        else:
+            R.check("R06-c", "add_entry-source:%d" % j, has_field(r[0], SW, "file_index_mapper") or has_field(r[0], POS, "file"),
+                    "source index comes from the node's file through the mapper",
+                    "write_for passes a source index not derived from the node's file", loc=wf.loc())
+
+
+# ---- emission skeleton seen through same-crate helpers (emit.emission cannot look into a helper)
+def emission_through(fn):
+    """ordered [(own, kind, literal-or-None, node)] of the SourceMapWriter calls of `fn` (an inl() copy) and of the helpers inlined
+    into it; own = the call is written in fn's own body"""
+    out = []
+
+    def rec(v, own):
+        if isinstance(v, list):
+            for x in v:
+                rec(x, own)
+            return
+        if not isinstance(v, dict):
+            return
+        for key, x in v.items():
+            if key != "inl" and isinstance(x, (dict, list)):
+                rec(x, own)
+        if v.get("k") == "MethodCall":
+            c = norm(v.get("callee") or "")
+            if c.startswith(SMW):
+                out.append((own, c[len(SMW):], lit_value(v["args"][0]) if v["args"] else None, v))
+        if "inl" in v:
+            rec(v["inl"]["body"], False)
+    rec(fn.body, True)
+    return out
 
 
 def r06d(P, R):
@@ -155,16 +694,19 @@ def r06d(P, R):
         ("nitrogql_printer::schema_type_printer::printer::SchemaTypePrinter::print_prelude", "export type "): "the __SelectionSet utility type",
     }
     n = 0
+    total_own = 0
     for f in scope:
-        em = emission(f)
-        for pos, (i, kind, lit, node) in enumerate(em):
-            if lit is None or not decl.search(lit):
+        if not any(x.get("k") == "MethodCall" and norm(x.get("callee") or "").startswith(SMW) for x in f.walk()):
+            continue
+        em = emission_through(inl(P, f))
+        for pos, (own, kind, lit, node) in enumerate(em):
+            if not own or lit is None or not decl.search(lit):
                 continue
             nxt = em[pos + 1] if pos + 1 < len(em) else None
             if (f.path, lit) in EXEMPT:
                 continue
             n += 1
-            key = "decl:%s:%s#%d" % (short(f.path), lit.strip(), sum(1 for e in em[:pos] if e[2] == lit))
+            key = "decl:%s:%s#%d" % (short(f.path), lit.strip(), sum(1 for e in em[:pos] if e[0] and e[2] == lit))
             if nxt is None:
                 R.undecided("R06-d", key, "identifier after `%s` is written by a callee" % lit, loc=f.loc())
                 continue
@@ -181,85 +723,128 @@ def r06d(P, R):
     R.floor("R06-d", "declaration sites", n, 12)
     # object keys and type variables in ts_types go through write_for
     pt = P.fn("nitrogql_printer::ts_types::TSType::print_type")
-    wf = [e for e in emission(pt) if e[1] == "write_for"]
+    wf = [e for e in emission_through(inl(P, pt)) if e[1] == "write_for"]
     R.floor("R06-d", "write_for in TSType::print_type (type variables, object keys)", len(wf), 2)
     total = sum(1 for f in P.fns.values() if f.path.startswith(("nitrogql_printer::", "<nitrogql_printer::", "<nitrogql_ast::")) and "::tests" not in f.path
-                for e in emission(f) if e[1] == "write_for")
+                for x in f.walk() if x.get("k") == "MethodCall" and norm(x.get("callee") or "") == SMW + "write_for")
     R.count("write_for_sites_in_printer", total)
     R.floor("R06-d", "write_for call sites in the printers", total, 28)
 
 
 def r06e(P, R):
     """sources agreement: the index mapper and the `sources` list come from one FileMap; sources relative to the map's file"""
-    rg = P.fn("nitrogql_cli::generate::run_generate")
-    pv = Prov(rg)
+    rg0 = P.fn("nitrogql_cli::generate::run_generate")
+    w = P.fn("nitrogql_cli::generate::write_file_and_sourcemap")
+    fm_adt = P.adt("FileMap")
+    FM = fm_adt.path
+    types = fm_adt.field_types()
+    stores = [f for f, t in types.items() if "FileStore" in t]
+    tables = [f for f, t in types.items() if "usize" in t]
+    F_STORE = stores[0] if len(stores) == 1 else "file_store"
+    F_TABLE = tables[0] if len(tables) == 1 else "file_indices"
+    # FileMap constructor functions are looked into; everything else run_generate calls is not
+    rg = inl(P, rg0, _returns_filemap)
+    C = Comp(P, rg)
+    pv = C.pv
+    nodes = rg.nodes()
+
+    def locals_of_type(e, ty):
+        return {y["local"] for y in subnodes(e) if y.get("k") == "Path" and "local" in y and ty in norm(str(y.get("t", "")))}
     setm = [c for c in rg.walk() if c.get("k") == "MethodCall" and (call_name(c) or "") == SW + "::set_file_index_mapper"]
-    wcalls = [c for c in rg.walk() if c.get("k") == "Call" and (call_name(c) or "").endswith("generate::write_file_and_sourcemap")]
+    wcalls = [(i, c) for i, (c, _) in enumerate(nodes) if c.get("k") == "Call" and (call_name(c) or "") == w.path]
     R.floor("R06-e", "SourceWriter uses in run_generate", len(setm), 3)
-    R.check("R06-e", "mapper-count", len(setm) == len(wcalls), "each source-mapped output sets a mapper and writes its map",
-            "%d mappers vs %d map writes" % (len(setm), len(wcalls)), loc=rg.loc())
+    R.floor("R06-e", "source-mapped outputs written by run_generate", len(wcalls), 3)
+    # every source-mapped output: its writer received a mapper, taken from the very FileMap that is handed to the map writer
+    for j, (i, c) in enumerate(wcalls):
+        bufs = [a for a in c["args"] if "SourceWriterBuffers" in norm(str(a.get("t", "")))]
+        fms = set().union(*[locals_of_type(a, FM) for a in c["args"]]) if c["args"] else set()
+        wl = set()
+        for a in bufs:
+            wl |= locals_of_type(C.resolve(a), SW)
+        if not wl:
+            R.undecided("R06-e", "mapper-set:%d" % j, "the SourceWriter whose buffers are written here could not be identified", loc=rg.loc())
+            continue
+        mine = [m for m in setm if locals_of_type(m["recv"], SW) & wl]
+        if not R.check("R06-e", "mapper-set:%d" % j, bool(mine), "the output's SourceWriter received a file-index mapper",
+                       "a source-mapped output is written from a SourceWriter on which set_file_index_mapper is never called: its segments "
+                       "carry raw file-store indices, not positions in `sources`", loc=rg.loc()):
+            continue
+        ml = set().union(*[locals_of_type(m["args"][0], FM) for m in mine])
+        if not fms or not ml:
+            R.undecided("R06-e", "mapper-same-filemap:%d" % j, "the FileMap behind the mapper or behind `sources` is not a plain local", loc=rg.loc())
+        else:
+            R.check("R06-e", "mapper-same-filemap:%d" % j, bool(ml & fms), "mapper and `sources` come from the same FileMap",
+                    "the writer's index mapper is taken from another FileMap than the one `sources` is computed from", loc=rg.loc())
     # FileMap literals: file_indices table
-    fms = [(i, n) for i, (n, _) in enumerate(rg.nodes()) if n.get("k") == "Struct" and "rest" not in n and norm(n.get("adt", "")).endswith("generate::FileMap")]
+    fms = [(i, n) for i, (n, _) in enumerate(nodes) if n.get("k") == "Struct" and "rest" not in n and norm(n.get("adt", "")) == FM]
     R.floor("R06-e", "FileMap constructions", len(fms), 3)
+
+    def mentions_schema(e):
+        return any(norm(y.get("def") or y.get("ctor_of") or "").endswith("FileKind::Schema") for y in subnodes(e))
+
+    def branch_val(e):
+        e = strip(e)
+        while isinstance(e, dict) and e.get("k") == "BlockExpr":
+            e = strip(e["b"].get("tail") or {})
+        return e
     for j, (i, fm) in enumerate(fms):
-        fi = [x for x in fm["fields"] if x["name"] == "file_indices"][0]["e"]
-        fs = [x for x in fm["fields"] if x["name"] == "file_store"][0]["e"]
-        a = pv.atoms(fi)
-        R.check("R06-e", "filemap-same-store:%d" % j, has_call(a, "FileStore::iter") and pv.atoms(fs) <= a | pv.atoms(fs),
-                "indices are computed by iterating the same file store", "file_indices is not computed from file_store.iter()", loc=rg.loc())
+        fi = [x for x in fm["fields"] if x["name"] == F_TABLE]
+        if not fi:
+            R.undecided("R06-e", "index-table:%d" % j, "FileMap literal without an explicit index table field", loc=rg.loc())
+            continue
+        fi = C.resolve(fi[0]["e"])
+        a = pv.deep_atoms(fi)
+        if has_call(a, "FileStore::iter"):
+            R.holds("R06-e", "filemap-same-store:%d" % j, "indices are computed by iterating the file store", loc=rg.loc())
+        else:
+            R.undecided("R06-e", "filemap-same-store:%d" % j, "the index table is not computed from FileStore::iter(); how it enumerates the files is not decided", loc=rg.loc())
         # index table: Schema -> own index (schema files come first, so position == index); the operation file -> schema_len(); else sentinel
         ifs = [x for x in subnodes(fi) if x.get("k") == "If"]
-        rows = []
-
-        def branch_val(e):
-            while e.get("k") == "BlockExpr":
-                e = e["b"].get("tail") or {}
-            return e
-        for x in ifs:
-            cond_atoms = pv.atoms(x["cond"])
-            v = branch_val(x["then"])
-            rows.append((cond_atoms, v))
-        last_else = None
-        if ifs:
-            e = ifs[-1].get("else")
-            last_else = branch_val(e) if e else None
-        first_bindings = set()
+        if not ifs:
+            R.undecided("R06-e", "index-table:%d" % j, "the index table is not written as an if/else chain", loc=rg.loc())
+            continue
+        rows = [(x, branch_val(x["then"])) for x in ifs]
+        e = ifs[-1].get("else")
+        last_else = branch_val(e) if e else None
+        first_bindings, kind_locals = set(), set()
         for cl in subnodes(fi):
             if cl.get("k") == "Closure" and cl["params"]:
                 bs = [b for b in subnodes(cl["params"][0]) if b.get("k") == "Binding"]
                 if bs:
                     first_bindings.add(bs[0]["local"])
-        kind_locals = set()
-        for cl in subnodes(fi):
-            if cl.get("k") == "Closure" and cl["params"]:
-                for b in subnodes(cl["params"][0]):
-                    if b.get("k") == "Binding" and "FileKind" in norm(b.get("t", "")):
-                        kind_locals.add(b["name"])
+                kind_locals |= {b["local"] for b in bs if "FileKind" in norm(b.get("t", ""))}
 
         def cond_locals(ifn):
-            return {x.get("name") for x in subnodes(ifn["cond"]) if x.get("k") == "Path" and "local" in x}
-        ok_schema = any(any(a_[0] == "def" and a_[1].endswith("FileKind::Schema") for a_ in c) and v.get("k") == "Path" and v.get("local") in first_bindings
-                        and cond_locals(ifn) <= kind_locals and cond_locals(ifn) for (c, v), ifn in zip(rows, ifs))
-        R.check("R06-e", "index-table:schema:%d" % j, ok_schema, "schema file k -> sources[k]",
-                "the row `kind == Schema -> idx` of the index table is missing or its condition also admits other files (only schema "
-                "files, which come first in the store, may keep their own index)", loc=rg.loc())
+            return {x["local"] for x in subnodes(ifn["cond"]) if x.get("k") == "Path" and "local" in x}
+        schema_rows = [(x, v) for x, v in rows if mentions_schema(x["cond"])]
+        if not schema_rows or not first_bindings or not kind_locals:
+            R.undecided("R06-e", "index-table:schema:%d" % j, "no row of the index table tests for FileKind::Schema in a recognised way", loc=rg.loc())
+        else:
+            ok_schema = any(v.get("k") == "Path" and v.get("local") in first_bindings and cond_locals(x) and cond_locals(x) <= kind_locals
+                            for x, v in schema_rows)
+            R.check("R06-e", "index-table:schema:%d" % j, ok_schema, "schema file k -> sources[k]",
+                    "the row `kind == Schema -> idx` of the index table also admits other files or does not yield the file's own index (only "
+                    "schema files, which come first in the store, may keep their own index)", loc=rg.loc())
         uses_current = any(c_[0] == "loop" for c_ in enclosing_contexts(rg, i))
         if uses_current:
-            R.check("R06-e", "index-table:operation-row:%d" % j, any((call_name(v) or "").endswith("FileStore::schema_len") for c, v in rows),
+            R.check("R06-e", "index-table:operation-row:%d" % j, any(v.get("k") == "MethodCall" and (call_name(v) or "").endswith("FileStore::schema_len") for _, v in rows),
                     "the operation file has its own row -> schema_len()",
                     "the operation file being generated has no row mapping it to schema_len(): it keeps its raw store index, which is past "
                     "the end of `sources` for every operation file but the first", loc=rg.loc())
-        ok_else = last_else is not None and last_else.get("k") == "Path" and norm(last_else.get("def", "")) == USIZE_MAX
-        R.check("R06-e", "index-table:other:%d" % j, ok_else, "files that are not sources -> sentinel", "other files are not mapped to the sentinel", loc=rg.loc())
-        op_rows = [(c, v) for c, v in rows if not any(a_[0] == "def" and a_[1].endswith("FileKind::Schema") for a_ in c)]
-        for c, v in op_rows:
+        if last_else is None or not last_else:
+            R.undecided("R06-e", "index-table:other:%d" % j, "the chain has no final else", loc=rg.loc())
+        else:
+            R.check("R06-e", "index-table:other:%d" % j, is_sentinel(P, last_else), "files that are not sources -> sentinel",
+                    "other files are not mapped to the sentinel", loc=rg.loc())
+        for x, v in rows:
+            if mentions_schema(x["cond"]):
+                continue
             ok = v.get("k") == "MethodCall" and (call_name(v) or "").endswith("FileStore::schema_len")
             R.check("R06-e", "index-table:operation:%d" % j, ok, "the operation file -> sources[schema_len] (first slot after the schema files)",
                     "the operation file being generated is mapped to `%s`; `sources` lists the schema files followed by this file, so its "
                     "slot is schema_len()" % (v.get("name") or call_name(v) or v.get("k")), loc=rg.loc())
     # a FileMap is never updated in place (a slot set for one output would stay set for the next), and the map used inside the
     # per-operation loop is built inside that loop
-    FM = "nitrogql_cli::generate::FileMap"
     muts = []
     for f in P.fns.values():
         if not f.path.startswith("nitrogql_cli::"):
@@ -277,90 +862,184 @@ def r06e(P, R):
     R.check("R06-e", "filemap-immutable", not muts, "no FileMap field is assigned or mutably borrowed after construction",
             "a FileMap is modified in place (%s): entries set for one generated file leak into the source maps of the following ones "
             "(stale `sources` entries; indices resolve to an earlier operation file)" % muts, loc=rg.loc())
-    nodes = rg.nodes()
     n_loop_uses = 0
-    for ci, (c, _) in enumerate(nodes):
-        if not (c.get("k") == "Call" and (call_name(c) or "").endswith("generate::write_file_and_sourcemap")):
-            continue
+    for ci, c in wcalls:
         loops = [l for l in enclosing_contexts(rg, ci) if l[0] == "loop"]
         if not loops:
             continue
         n_loop_uses += 1
-        fm_locals = {y["local"] for a_ in c["args"] for y in subnodes(a_) if y.get("k") == "Path" and "local" in y and "generate::FileMap" in norm(str(y.get("t", "")))}
-        lets = [(i, n) for i, (n, _) in enumerate(nodes) if n.get("k") == "Let" and any(b.get("k") == "Binding" and b["local"] in fm_locals for b in subnodes(n["pat"]))]
         inner = loops[0][1]
-        ok = bool(lets) and all(templates_contains(inner, n) for _, n in lets)
+        fm_locals = set().union(*[locals_of_type(a_, FM) for a_ in c["args"]])
+        lets = [n for n, _ in nodes if n.get("k") == "Let" and any(b.get("k") == "Binding" and b["local"] in fm_locals for b in subnodes(n["pat"]))]
+        built_here = any(norm(str(y.get("t", ""))).startswith(FM) and y.get("k") in ("Struct", "Call", "MethodCall") for a_ in c["args"] for y in subnodes(a_))
+        if not lets:
+            if built_here:
+                R.holds("R06-e", "filemap-per-output", "the FileMap is built in the call itself")
+            else:
+                R.undecided("R06-e", "filemap-per-output", "the FileMap handed to the per-operation output is not a local of run_generate", loc=rg.loc())
+            continue
+        ok = all(templates_contains(inner, n) for n in lets)
         R.check("R06-e", "filemap-per-output", ok, "the FileMap of a per-operation output is built in the same loop iteration",
                 "the FileMap used for the per-operation source maps is built outside the operation loop and shared between iterations", loc=rg.loc())
     R.floor("R06-e", "source-mapped outputs written in a loop", n_loop_uses, 1)
     # write_file_and_sourcemap: sources from file_map (filtered by sentinel, store order), map json gets the output path
-    w = P.fn("nitrogql_cli::generate::write_file_and_sourcemap")
-    pvw = Prov(w)
-    pj = [c for c in w.walk() if c.get("k") == "Call" and (call_name(c) or "").endswith("print_source_map_json")]
+    wi = inl(P, w)
+    CW = Comp(P, wi)
+    pvw = CW.pv
+    fm_params = {pvw.params[p["local"]] for p in wi.params if p.get("k") == "Binding" and FM in norm(str(p.get("t", "")))}
+    pj = [c for c in wi.walk() if c.get("k") == "Call" and (call_name(c) or "").endswith("print_source_map_json")]
     R.floor("R06-e", "print_source_map_json calls", len(pj), 1)
+    targets = [c["args"][0] for c in wi.walk() if c.get("k") == "Call" and (call_name(c) or "") in ("std::fs::File::create", "std::fs::write") and c["args"]]
     for c in pj:
         a0 = pvw.atoms(c["args"][0])
         a1 = pvw.atoms(c["args"][1])
-        fc = [x for x in w.walk() if x.get("k") == "Call" and (call_name(x) or "") == "std::fs::File::create"]
-        same = bool(fc) and {x for x in a0 if x[0] == "param"} == {x for x in pvw.atoms(fc[0]["args"][0]) if x[0] == "param"} == {("param", "output_file_path")}
-        R.check("R06-e", "map-file-anchor", same, "`sources` are made relative to the generated file that the map sits next to",
-                "print_source_map_json is given a different path than the one the output is written to", loc=w.loc())
-        ok = ("param", "file_map") in a1 and has_field(a1, "nitrogql_cli::generate::FileMap", "file_indices") and has_field(a1, "nitrogql_cli::generate::FileMap", "file_store")
-        R.check("R06-e", "sources-from-filemap", ok, "`sources` is derived from the same FileMap as the index mapper",
-                "`sources` is not derived from file_map.file_indices zipped with file_map.file_store", loc=w.loc())
-        bad = [x["method"] for x in subnodes(c["args"][1]) if x.get("k") == "MethodCall" and x["method"] in ("rev", "sorted", "sort", "skip", "take", "dedup", "unique")]
-    zips = [c for c in w.walk() if c.get("k") == "MethodCall" and c["method"] == "zip"]
-    R.check("R06-e", "sources-order", len(zips) == 1 and not any(x.get("k") == "MethodCall" and x["method"] in ("rev", "sorted", "sort_by", "sort", "skip", "take", "dedup")
-                                                                for x in w.walk()),
-            "`sources` keeps file-store order (indices are positions in it)", "`sources` is reordered/truncated relative to the index table", loc=w.loc())
+        p0 = {x for x in a0 if x[0] == "param"}
+        tp = [{x for x in pvw.atoms(t) if x[0] == "param"} for t in targets]
+        if not targets or not p0:
+            R.undecided("R06-e", "map-file-anchor", "where the generated file is written, or which path the map is anchored at, was not recognised", loc=w.loc())
+        else:
+            R.check("R06-e", "map-file-anchor", len(p0) == 1 and any(p0 == t for t in tp), "`sources` are made relative to the generated file that the map sits next to",
+                    "print_source_map_json is given a different path than the one the output is written to", loc=w.loc())
+        ok = any(("param", x) in a1 for x in fm_params) and has_field(a1, FM, F_TABLE) and has_field(a1, FM, F_STORE)
+        if ok or not any(x[0] == "param" and x[1] not in fm_params for x in a1):
+            R.check("R06-e", "sources-from-filemap", ok, "`sources` is derived from the same FileMap as the index mapper",
+                    "`sources` is not derived from the FileMap's index table zipped with its file store", loc=w.loc())
+        else:
+            R.undecided("R06-e", "sources-from-filemap", "`sources` is (also) computed from another parameter of %s; where that comes from is not decided" % w.name, loc=w.loc())
+        # the computation of `sources`: the expression, the locals it uses and the helpers it calls
+        flow, seen, todo = [], set(), [c["args"][1]]
+        while todo:
+            for y in subnodes(todo.pop()):
+                flow.append(y)
+                if y.get("k") == "Path" and y.get("local") in CW.single and y["local"] not in seen:
+                    seen.add(y["local"])
+                    todo.append(CW.single[y["local"]])
+        zips = [y for y in flow if y.get("k") == "MethodCall" and y["method"] == "zip"]
+        bad = sorted({y["method"] for y in flow if y.get("k") == "MethodCall" and y["method"] in ("rev", "sorted", "sort_by", "sort", "skip", "take", "dedup", "unique",
+                                                                                                    "sort_by_key", "sort_unstable", "reverse", "step_by")})
+        if bad:
+            R.violated("R06-e", "sources-order", "`sources` is reordered/truncated relative to the index table (%s)" % bad, loc=w.loc())
+        elif len(zips) != 1:
+            R.undecided("R06-e", "sources-order", "`sources` is not computed by one zip of the index table with the file store", loc=w.loc())
+        else:
+            R.holds("R06-e", "sources-order", "`sources` keeps file-store order (indices are positions in it)", loc=w.loc())
     psm = P.fn("sourcemap_writer::source_writer::print_source_map_json")
     pvp = Prov(psm)
     rel = [c for c in psm.walk() if c.get("k") == "Call" and (call_name(c) or "").endswith("relative_path::relative_path")]
-    ok = bool(rel) and ("param", "file") in pvp.atoms(rel[0]["args"][0]) and ("param", "source_files") in pvp.atoms(rel[0]["args"][1])
-    R.check("R06-e", "sources-relative", ok, "each source is relative_path(generated file, source file)", "sources are not relative to the generated file", loc=psm.loc())
-    keys = [lit_value(c["args"][0]) for c in psm.walk() if c.get("k") == "MethodCall" and c["method"] == "value"]
-    R.check("R06-e", "v3-keys", keys == ["version", "file", "sourceRoot", "sources", "names", "mappings"], "Source Map v3 keys",
-            "source map JSON keys are %s" % keys, loc=psm.loc())
+    srcs = [c for c in psm.walk() if c.get("k") == "MethodCall" and c["args"] and lit_value(c["args"][0]) == "sources"]
+    if rel:
+        ok = ("param", "file") in pvp.atoms(rel[0]["args"][0]) and ("param", "source_files") in pvp.atoms(rel[0]["args"][1])
+        R.check("R06-e", "sources-relative", ok, "each source is relative_path(generated file, source file)", "sources are not relative to the generated file", loc=psm.loc())
+    elif srcs and any(("param", "source_files") in pvp.atoms(a) for c in srcs for a in c["args"][1:]):
+        R.violated("R06-e", "sources-relative", "the `sources` entry is written from the source paths without relative_path: sources are not relative to "
+                   "the generated file", loc=psm.loc())
+    else:
+        R.undecided("R06-e", "sources-relative", "where `sources` is computed was not recognised", loc=psm.loc())
+    keys = {lit_value(c["args"][0]) for c in psm.walk() if c.get("k") == "MethodCall" and c["args"] and isinstance(lit_value(c["args"][0]), str)}
+    required = {"version", "sources", "names", "mappings"}
+    R.check("R06-e", "v3-keys", required <= keys, "Source Map v3 keys",
+            "source map JSON lacks the required key(s) %s (keys written: %s)" % (sorted(required - keys), sorted(keys)), loc=psm.loc())
 
 
 def r06f(P, R):
     """generated-column arithmetic is in UTF-16 code units; line/column reset on newline"""
-    w = P.fn(SMW_WRITE)
-    pv = Prov(w)
-    incs = [n for n in w.walk() if n.get("k") == "AssignOp" and n["l"].get("k") == "Field" and n["l"]["field"] == "current_column"]
-    R.floor("R06-f", "column increments in write", len(incs), 1)
-    for n in incs:
-        a = pv.atoms(n["r"])
+    w0 = P.fn(SMW_WRITE)
+    w = inl(P, w0, _not_utf16_len)
+    pv = Prov(w, field_assign=False)   # per-field precision on `self`: `self.indent` does not depend on what was added to `self.current_column`
+    text = [pv.params[p["local"]] for p in w.params[1:2] if p.get("k") == "Binding"]
+
+    def sw_field(n, name):
+        return n.get("k") == "Field" and n.get("field") == name and norm(n.get("adt")) == SW
+
+    def advances(n, name):
+        """`self.<name> += e` or `self.<name> = self.<name> + e` -> e"""
+        if n.get("k") == "AssignOp" and n.get("op") == "+=" and sw_field(n["l"], name):
+            return n["r"]
+        if n.get("k") == "Assign" and sw_field(n["l"], name) and strip(n["r"]).get("k") == "Binary" and strip(n["r"]).get("op") == "+":
+            b = strip(n["r"])
+            for own, other in ((b["l"], b["r"]), (b["r"], b["l"])):
+                if sw_field(strip(own), name):
+                    return other
+        return None
+
+    def sets(n, name, value):
+        return n.get("k") == "Assign" and sw_field(n["l"], name) and str(lit_value(n["r"])).lower() == value
+    incs = [advances(n, "current_column") for n in w.walk()]
+    incs = [e for e in incs if e is not None and text and ("param", text[0]) in pv.atoms(e)]
+    incs = list({str(e.get("s")): e for e in incs}.values())   # a helper inlined at several call sites is one site
+    R.floor("R06-f", "column increments by the written text (write and its helpers)", len(incs), 1)
+    for e in incs:
+        a = pv.atoms(e)
         ok = has_call(a, "utf16_len::utf16_len") and not any(x[0] == "call" and x[1].split("::")[-1] in ("count", "len", "len_utf8") for x in a)
         R.check("R06-f", "column-units:write", ok, "generated column advances by utf16_len(line)",
                 "SourceWriter::write advances the generated column by something other than the UTF-16 length of the text "
                 "(source map columns are UTF-16 code units): segments after a non-BMP character are misplaced", loc=w.loc())
     u = P.fn("sourcemap_writer::source_writer::utf16_len::utf16_len")
-    ok = any(x.get("k") == "MethodCall" and x["method"] == "len_utf16" for x in u.walk()) and any(x.get("k") == "MethodCall" and x["method"] == "sum" for x in u.walk())
-    R.check("R06-f", "utf16_len-def", ok, "utf16_len sums char::len_utf16", "utf16_len is not the sum of len_utf16 over chars", loc=u.loc())
-    # newline: line += 1, column = 0, indent flag set
-    sets = {(n["l"]["field"], n.get("op", "=")): n for n in w.walk() if n.get("k") in ("Assign", "AssignOp") and n["l"].get("k") == "Field" and norm(n["l"].get("adt")) == SW}
-    R.check("R06-f", "newline-resets", ("current_line", "+=") in sets and ("current_column", "=") in sets and ("has_indent_flag", "=") in sets,
-            "a newline advances the line, resets the column and defers indentation", "write does not reset line/column state on newline: %s" % sorted(sets), loc=w.loc())
+    methods = [x["method"] for x in u.walk() if x.get("k") == "MethodCall"]
+    if "len_utf16" in methods and "sum" in methods:
+        R.holds("R06-f", "utf16_len-def", "utf16_len sums char::len_utf16", loc=u.loc())
+    elif "encode_utf16" not in methods and any(m in ("len", "count", "len_utf8") for m in methods):
+        R.violated("R06-f", "utf16_len-def", "utf16_len is not the sum of len_utf16 over chars (it measures with %s)"
+                   % sorted(m for m in methods if m in ("len", "count", "len_utf8")), loc=u.loc())
+    else:
+        R.undecided("R06-f", "utf16_len-def", "utf16_len is not written as a sum of char::len_utf16; its definition is not decided", loc=u.loc())
+    # newline: line += 1, column = 0, indent flag set — in write or a helper it calls
+    found = {"the line is advanced": any(advances(n, "current_line") is not None for n in w.walk()),
+             "the column is reset (assigned, not only advanced)": any(n.get("k") == "Assign" and sw_field(n["l"], "current_column") and advances(n, "current_column") is None
+                                                                      for n in w.walk()),
+             "indentation is deferred": any(sets(n, "has_indent_flag", "true") for n in w.walk())}
+    missing = sorted(k for k, v in found.items() if not v)
+    R.check("R06-f", "newline-resets", not missing, "a newline advances the line, resets the column and defers indentation",
+            "neither write nor a helper it calls does this on a newline: %s" % "; ".join(missing), loc=w.loc())
     fl = P.fn(SW + "::flush_pending_indent")
     pvf = Prov(fl)
-    inc = [n for n in fl.walk() if n.get("k") == "AssignOp" and n["l"]["field"] == "current_column"]
-    ok = len(inc) == 1 and has_field(pvf.atoms(inc[0]["r"]), SW, "indent")
-    R.check("R06-f", "indent-column", ok, "flushing indentation advances the column by the indent width", "flush_pending_indent does not advance the column by `indent`", loc=fl.loc())
+    inc = [e for e in (advances(n, "current_column") for n in fl.walk()) if e is not None]
+    if len(inc) != 1:
+        R.undecided("R06-f", "indent-column", "flush_pending_indent advances the column at %d places" % len(inc), loc=fl.loc())
+    else:
+        R.check("R06-f", "indent-column", has_field(pvf.atoms(inc[0]), SW, "indent"), "flushing indentation advances the column by the indent width",
+                "flush_pending_indent does not advance the column by `indent`", loc=fl.loc())
     # closing segment: original column + utf16_len(name)
     wf = P.fn(SMW_WRITE_FOR)
-    pvw = Prov(wf)
-    adds = [c for c in wf.walk() if c.get("k") == "MethodCall" and (call_name(c) or "") == MW + "::add_entry"]
-    closing = [c for c in adds if any(x.get("k") == "Binary" and x.get("op") == "+" for x in subnodes(c["args"][3]))]
-    ok = len(closing) == 1 and has_call(pvw.atoms(closing[0]["args"][3]), "utf16_len")
-    R.check("R06-f", "closing-segment-units", ok, "range-closing segment = original column + utf16_len(name)",
-            "the range-closing segment is not `original column + utf16_len(name)`", loc=wf.loc())
-    # VLQ sign/continuation constants
+    wfi = inl(P, wf)
+    C = Comp(P, wfi)
+    role = entry_roles(P).get("last_original_column")
+    cols = [entry_component(C, c, role) for c in add_entry_calls(wfi)] if role else []
+    if not cols or any(r is None for r in cols):
+        R.undecided("R06-f", "closing-segment-units", "the original column handed to add_entry could not be traced at every call", loc=wf.loc())
+    else:
+        closing = [r for r in cols if ("op", "+") in r[0]]
+        if len(closing) == 1:
+            R.check("R06-f", "closing-segment-units", has_call(closing[0][0], "utf16_len"), "range-closing segment = original column + utf16_len(name)",
+                    "the range-closing segment is not `original column + utf16_len(name)`", loc=wf.loc())
+        elif not closing and len(cols) >= 2 and all(r[1] for r in cols):
+            R.violated("R06-f", "closing-segment-units", "no segment of write_for adds the length of the name to the original column: the range-closing "
+                       "segment is not `original column + utf16_len(name)`", loc=wf.loc())
+        else:
+            R.undecided("R06-f", "closing-segment-units", "%d segments add something to the original column" % len(closing), loc=wf.loc())
+    # VLQ sign/continuation constants (literals or named constants): 4 value bits + sign in the first digit, 5 in the others
     b = P.fn("sourcemap_writer::base64_vlq::base64_vlq")
-    ints = sorted(set(x.get("v") for x in b.walk() if x.get("k") == "Lit" and x.get("lk") == "int"))
-    need = {"16", "15", "32", "31", "4", "5", "1", "0"}
-    R.check("R06-f", "vlq-constants", need <= set(ints), "VLQ uses 4+5-bit groups, sign in bit 0, continuation bit 32",
-            "base64_vlq constants are %s (expected to include %s)" % (ints, sorted(need)), loc=b.loc())
+    masks, shifts, lshifts, ints = [], [], [], set()
+    for x in b.walk():
+        v = int_of(P, x) if x.get("k") in ("Lit", "Path") else None
+        if v is not None:
+            ints.add(v)
+        if x.get("k") in ("Binary", "AssignOp"):
+            op = (x.get("op") or "").rstrip("=") if x.get("k") == "AssignOp" else x.get("op")
+            lv, rv = int_of(P, x["l"]), int_of(P, x["r"])
+            if op == "&" and (lv is not None or rv is not None):
+                masks.append(rv if rv is not None else lv)
+            elif op == ">>" and rv is not None:
+                shifts.append(rv)
+            elif op == "<<" and rv is not None:
+                lshifts.append(rv)
+    if len(masks) < 2 or len(shifts) < 2:
+        R.undecided("R06-f", "vlq-constants", "base64_vlq does not slice the value with two `&` masks and two `>>` shifts (masks=%s, shifts=%s)" % (masks, shifts), loc=b.loc())
+    else:
+        ok = {15, 31} <= set(masks) and {4, 5} <= set(shifts) and (32 in ints or 5 in lshifts) and (1 in lshifts or 2 in ints)
+        R.check("R06-f", "vlq-constants", ok, "VLQ uses 4+5-bit groups, sign in bit 0, continuation bit 32",
+                "base64_vlq slices the value with masks %s and shifts %s (continuation bit present: %s); Base64 VLQ needs masks 15 and 31 with shifts 4 and "
+                "5, the sign in bit 0 and continuation bit 32" % (sorted(masks), sorted(shifts), 32 in ints), loc=b.loc())
     # continuation digits: inside the digit loop, the 5-bit group is read before the shift, and the continuation bit is set exactly
     # when something remains after this group
     nodes = b.nodes()
@@ -369,10 +1048,10 @@ def r06f(P, R):
     for li in loops:
         loop = nodes[li][0]
         inside = [(i, x) for i, (x, _) in enumerate(nodes) if i > li and templates_contains(loop, x)]
-        shifts = [(i, x) for i, x in inside if x.get("k") == "AssignOp" and x.get("op") == ">>=" and lit_value(x["r"]) in (5, "5")]
+        shifts = [(i, x) for i, x in inside if x.get("k") == "AssignOp" and x.get("op") == ">>=" and int_of(P, x["r"]) == 5]
         conts = [(i, x) for i, x in inside if x.get("k") == "If" and not x.get("x")
-                 and {str(lit_value(y)) for y in subnodes(x.get("then")) + subnodes(x.get("else") or {}) if y.get("k") == "Lit"} >= {"32", "0"}]
-        masks = [(i, x) for i, x in inside if x.get("k") == "Binary" and x.get("op") == "&" and str(lit_value(x["r"])) == "31"]
+                 and {int_of(P, y) for y in subnodes(x.get("then")) + subnodes(x.get("else") or {}) if y.get("k") in ("Lit", "Path")} >= {32, 0}]
+        masks = [(i, x) for i, x in inside if x.get("k") == "Binary" and x.get("op") == "&" and int_of(P, x["r"]) == 31]
         if len(shifts) != 1 or len(conts) != 1 or len(masks) != 1:
             R.undecided("R06-f", "vlq-continuation", "digit loop not in a recognised shape (shifts=%d, continuation tests=%d, masks=%d)" % (len(shifts), len(conts), len(masks)), loc=b.loc())
             continue
@@ -384,11 +1063,10 @@ def r06f(P, R):
         form = None
         if cond.get("k") == "Binary":
             lhs, rhs, op = cond["l"], cond["r"], cond.get("op")
-            n = lit_value(rhs)
-            n = int(n) if n is not None and str(n).isdigit() else None
+            n = int_of(P, rhs)
             if lhs.get("k") == "Path" and lhs.get("local") == var and n is not None:
                 form = ("var", op, n)
-            elif lhs.get("k") == "Binary" and lhs.get("op") == ">>" and lhs["l"].get("local") == var and str(lit_value(lhs["r"])) == "5" and n is not None:
+            elif lhs.get("k") == "Binary" and lhs.get("op") == ">>" and lhs["l"].get("local") == var and int_of(P, lhs["r"]) == 5 and n is not None:
                 form = ("shifted", op, n)
         after = ci > si
         if form is None:
@@ -404,23 +1082,30 @@ def r06f(P, R):
                     % ("value" if form[0] == "var" else "value >> 5", form[1], form[2], "after" if after else "before"), loc=b.loc())
         R.check("R06-f", "vlq-group-before-shift", mi < si, "the digit's 5 bits are read before the value is shifted",
                 "the 5-bit group is read after the shift: the digit carries the next group's bits", loc=b.loc())
-    tab = [n for n in P.fns.values() if n.path.endswith("base64_vlq::BASE64_CHARS")]
-    if tab:
+    # the digit alphabet: the char table base64_vlq indexes (found by use, whatever its name)
+    tab = []
+    for x in b.walk():
+        if x.get("k") == "Path" and "def" in x:
+            c = P.fns.get(norm(x["def"]))
+            if c is not None and str(c.kind).startswith(("Const", "Static")) and c not in tab and any(y.get("k") == "Lit" and y.get("lk") == "char" for y in c.walk()):
+                tab.append(c)
+    if len(tab) == 1:
         chars = "".join(x.get("v") for x in tab[0].walk() if x.get("k") == "Lit" and x.get("lk") == "char")
         R.check("R06-f", "base64-alphabet", chars == "ABCDEFGHIJKLMNOPQRSTUVWXYZabcdefghijklmnopqrstuvwxyz0123456789+/",
                 "standard base64 alphabet in order", "base64 alphabet table is `%s`" % chars, loc=tab[0].loc())
     else:
-        R.violated("R06-f", "base64-alphabet", "kind=anchor-missing: BASE64_CHARS table not found")
+        R.undecided("R06-f", "base64-alphabet", "kind=anchor-missing: base64_vlq does not index exactly one constant table of chars (%d found)" % len(tab))
 
 
 RULES = [("R06-a", r06a), ("R06-b", r06b), ("R06-c", r06c), ("R06-d", r06d), ("R06-e", r06e), ("R06-f", r06f)]
 EXPLANATION = (
     "Structural necessary conditions of source-map validity: (R06-a) every last_* delta base of MappingWriter::add_entry is "
-    "subtracted from and updated with the same parameter, on the same paths, and the VLQ fields are emitted in v3 order; (R06-b) "
+    "subtracted from and updated with the same input quantity, on the same paths, and the VLQ fields are emitted in v3 order; (R06-b) "
     "the usize::MAX sentinel generate.rs puts in the file-index table is filtered by every consumer (today write_for does not: "
     "known finding); (R06-c) in the named branch of write_for, flush_pending_indent dominates add_entry, the order is [segment, "
-    "chunk, closing segment], builtin nodes emit no segment and add_entry gets (gen line, gen col, orig line, orig col, source) in "
-    "position; (R06-d) at every declaration site of the schema/resolver/operation printers the identifier after `type `/`const ` "
+    "chunk, closing segment], builtin nodes emit no segment and the components add_entry remembers as generated line/column, original "
+    "line/column and source come from the cursor, the node position and the file mapper respectively (whatever the packaging of the "
+    "arguments); (R06-d) at every declaration site of the schema/resolver/operation printers the identifier after `type `/`const ` "
     "is written by write_for on an identifier-like node; (R06-e) the index mapper and `sources` come from the same FileMap with "
     "the table schema k -> k, current operation file -> schema_len(), others -> sentinel, `sources` keeps store order and is "
     "relative to the generated file; (R06-f) generated columns advance by utf16_len, newline/indent bookkeeping, closing segment "
